@@ -50,7 +50,46 @@ fn main() {
         return;
     }
     let prop = args[1].to_uppercase();
-    let env = Env::from_args(&prop, &args[2..]);
+    if !args.iter().any(|a| a == "--worker") && !args.iter().any(|a| a == "--replay") && std::env::var("VH_NO_WORKER").is_err() {
+        // parent: the campaigns run in a worker process so that an abort inside nitrogql (stack overflow,
+        // a panic in a destructor, a sanitizer report) is observed instead of taking the check down
+        let status = std::process::Command::new(std::env::current_exe().unwrap()).args(&args[1..]).arg("--worker").status().expect("spawn worker");
+        match status.code() {
+            Some(c) if c == 0 || c == 1 || c == 2 => std::process::exit(c),
+            _ => {
+                println!("  worker died abnormally ({status}); re-running single-threaded with in-flight tracing");
+                let inflight = format!("{}/work/inflight-{}.json", vh::runner::VERIF, std::process::id());
+                let _ = std::fs::create_dir_all(format!("{}/work", vh::runner::VERIF));
+                let _ = std::fs::remove_file(&inflight);
+                let st2 = std::process::Command::new(std::env::current_exe().unwrap())
+                    .args(&args[1..])
+                    .arg("--worker")
+                    .env("VH_INFLIGHT", &inflight)
+                    .env("VERIF_THREADS", "1")
+                    .status()
+                    .expect("spawn worker");
+                let dir = format!("{}/replays/{prop}", vh::runner::VERIF);
+                let _ = std::fs::create_dir_all(&dir);
+                let replay = format!("{dir}/abort-{}.json", std::process::id());
+                let reproduced = !matches!(st2.code(), Some(0) | Some(1) | Some(2));
+                if reproduced && std::path::Path::new(&inflight).exists() {
+                    let _ = std::fs::copy(&inflight, &replay);
+                } else {
+                    let _ = std::fs::write(&replay, "{\"note\": \"worker aborted; not reproduced single-threaded\"}");
+                }
+                let _ = std::fs::remove_file(&inflight);
+                if prop == "C08" {
+                    println!("  failure[abort] nitrogql aborted the process (stack overflow or abort; not a catchable panic) on a generated input");
+                    println!("VIOLATION property={prop} replay={replay}");
+                    std::process::exit(1);
+                }
+                println!("INCONCLUSIVE property={prop} the code under test aborted the worker process on a generated input (a C08 matter; replay={replay})");
+                std::process::exit(2);
+            }
+        }
+    }
+    let wargs: Vec<String> = args[2..].iter().filter(|a| *a != "--worker").cloned().collect();
+    let env = Env::from_args(&prop, &wargs);
     install_panic_hook();
     start_watchdog(if env.tier == Tier::Quick { 900 } else { 7200 }, &prop);
     println!(
